@@ -131,6 +131,22 @@ def scan_scenarios(tier):
     add("scan_rev_reseek_first_child", two, ["sr"], ["r%d" % a])
     add("scan_fwd_reseek_grow", rng(4) + [a], ["sf"], ["i5", "r4"])
     add("scan_from_absent_bound", two, ["ff3", "fr%d" % K(0, 0, 200)], ["r2", "i2"])
+    # in-place edits of a sorted node (I4/I16 shift their key/child arrays) under the scanner:
+    # removal / insertion of an earlier (forward) or later (reverse) sibling of the current leaf
+    four = rng(4)
+    add("scan_fwd_inplace_rem_earlier", four, ["sf"], ["r1"])
+    add("scan_fwd_inplace_rem_earlier2", four, ["sf"], ["r2"])
+    add("scan_rev_inplace_rem_later", four, ["sr"], ["r4"])
+    add("scan_rev_inplace_rem_later2", four, ["sr"], ["r3"])
+    add("scan_fwd_inplace_ins_earlier", [2, 4, 6], ["sf"], ["i1", "i3"])
+    add("scan_rev_inplace_ins_later", [2, 4, 6], ["sr"], ["i7", "i5"])
+    add("scan_fwd_inplace_rem_two_levels", four + [a, b], ["sf"], ["r1", "r2"])
+    add("scan_from_inplace_rem", four, ["ff2"], ["r1"])
+    add("scan_range_inplace_rem", four + [a], ["R2-%d" % a], ["r1", "r3"])
+    i16 = rng(8)
+    add("scan_fwd_i16_inplace_rem", i16, ["sf"], ["r1", "r3"])
+    add("scan_rev_i16_inplace_rem", i16, ["sr"], ["r8", "r6"])
+    add("scan_fwd_i16_inplace_ins", [2, 4, 6, 8, 10, 12], ["sf"], ["i1", "i5"])
     # two writers
     add("scan_two_writers", three, ["sf"], ["r1", "i1"], ["r%d" % c, "i%d" % K(0, 2, 2)])
     add("scan_range_two_writers", three, ["R2-%d" % c], ["r%d" % a], ["i3"])
